@@ -289,6 +289,9 @@ func assertProp(c *Term, tag string) {
 	} else {
 		r = solver.Check(mkNot(c))
 	}
+	if r == resUnknown {
+		r = portfolioCheck(c)
+	}
 	switch r {
 	case resUnsat:
 		o.Discharged++
@@ -443,3 +446,42 @@ func sortedKeys[V any](m map[string]V) []string {
 	sort.Strings(ks)
 	return ks
 }
+
+// portfolioCheck re-asks an obligation that the primary solver could not decide: the path
+// condition and the negated property are sent to the other installed solvers, each in a fresh
+// process with its own timeout. Any definite answer is taken.
+func portfolioCheck(c *Term) satResult {
+	for _, name := range []string{"z3", "z3-new", "cvc5"} {
+		if name == solver.name {
+			continue
+		}
+		res := func() (r satResult) {
+			defer func() {
+				if recover() != nil {
+					r = resUnknown
+				}
+			}()
+			s2 := NewSolver(name, solver.timeoutMs, 1)
+			defer s2.Close()
+			for _, p := range px.pc {
+				s2.Assert(p)
+			}
+			if c.isFalse() {
+				return s2.Check()
+			}
+			return s2.Check(mkNot(c))
+		}()
+		portfolioUses++
+		if res != resUnknown {
+			if res == resSat {
+				// models are fetched from the primary solver; a sat verdict from the portfolio is
+				// reported as unknown unless the primary can confirm it with more time
+				return resUnknown
+			}
+			return res
+		}
+	}
+	return resUnknown
+}
+
+var portfolioUses int
